@@ -75,6 +75,9 @@ def gen_small_instances(rng, n2_b_range, n3, n4):
     for i in gen_collinear_instances(rng, n3 // 2, 3, 4):
         if max(abs(x) for row in i["A"] for x in row) <= 20:
             insts.append(i)
+    for i in gen_twin_instances(rng, n3 // 2, 4):
+        if max(abs(x) for row in i["A"] for x in row) <= 40:
+            insts.append(i)
     return insts
 
 
@@ -173,9 +176,38 @@ def gen_collinear_instances(rng, count, nlo=3, nhi=8):
     return out
 
 
+def gen_twin_instances(rng, count, nmax=6):
+    """systems invariant under swapping groups of parameters (equal diagonal, equal couplings, equal right-hand side): the
+    twins enter and leave the passive set together, so several indices hit zero in the SAME line-search step (exact ties)"""
+    out = []
+    tries = 0
+    while len(out) < count and tries < count * 200:
+        tries += 1
+        g = int(rng.integers(2, 4))            # twin group size
+        r = int(rng.integers(1, max(2, nmax - g)))  # other parameters
+        n = g + r
+        B = rng.integers(-2, 4, size=(r, r))
+        A = np.zeros((n, n), dtype=int)
+        A[:r, :r] = B @ B.T + int(rng.integers(1, 4)) * np.eye(r, dtype=int)
+        c = rng.integers(-4, 5, size=r)        # coupling of every twin to the others
+        dg, od = int(rng.integers(4, 40)), int(rng.integers(-3, 4))
+        for a in range(g):
+            A[r + a, :r] = c
+            A[:r, r + a] = c
+            for b_ in range(g):
+                A[r + a, r + b_] = dg if a == b_ else od
+        if np.linalg.eigvalsh(A.astype(float)).min() < 0.2:
+            continue
+        b = np.concatenate([rng.integers(-6, 9, size=r), np.full(g, int(rng.integers(-4, 9)))])
+        perm = rng.permutation(n)
+        A, b = A[np.ix_(perm, perm)], b[perm]
+        out.append({"A": A.astype(int).tolist(), "b": b.astype(int).tolist()})
+    return out
+
+
 def gen_large_instances(rng, count, nmax=12):
     """integer SPD systems  A = M'M + ridge,  b = M'y  with y positive / zero-mean / negative (noise dominated)"""
-    out = gen_collinear_instances(rng, count)
+    out = gen_collinear_instances(rng, count) + gen_twin_instances(rng, count)
     for k in range(count):
         n = int(rng.integers(3, nmax + 1))
         m = n + int(rng.integers(0, 6))
